@@ -1020,7 +1020,18 @@ impl Exch {
             _ => {}
         }
         if c.fp() != fp {
-            return Err((self.k("queries", "not-pure"), format!("read-only queries changed the state in {}", self.flow.name())));
+            // the object's internal state changed (e.g. a memo behind `calculate_max_input(&mut self)`): that alone
+            // is no effect a caller can see. Judged by what it leads to: every enabled action must have the same
+            // visible effect on the queried object as on the untouched one.
+            let mut queried = self.clone();
+            queried.flow = c;
+            for a in Sys::actions(self) {
+                let (mut s0, mut s1) = (self.clone(), queried.clone());
+                let (r0, r1) = (s0.step(&a).map_err(|e| e.0), s1.step(&a).map_err(|e| e.0));
+                if r0 != r1 || s0.progress_key() != s1.progress_key() {
+                    return Err((self.k("queries", "not-pure"), format!("after the read-only queries in {} the action {:?} has another effect than without them ({:?} / {:?})", self.flow.name(), a, r0, r1)));
+                }
+            }
         }
         Ok(())
     }
